@@ -117,7 +117,9 @@ func VHC15Sequence() {
 	doc["e0"], doc["e1"], doc["e2"] = e0, e1, e2
 	doc["arr"] = []any{e0, e1, e2}
 	list := []c15Elem{{kind: kStr, str: e0}, {kind: kStr, str: e1}, {kind: kStr, str: e2}}
-	prog := "{ a = [$.e0, $.e1, $.e2]; o = {l: [$.e0, $.e1, $.e2]}\n"
+	// `al` is a second holder of the same array, taken before the operations: whatever it
+	// shows afterwards (see the known finding of C09), looking at it must not crash
+	prog := "{ a = [$.e0, $.e1, $.e2]; o = {l: [$.e0, $.e1, $.e2]}\nal = " + h + "\n"
 	want := ""
 	preludes := [][]int{{}, {oPop, oPop}, {oPopFirst, oPop}, {oPop}, {oPop, oPop, oPop}}
 	np := 3
@@ -251,7 +253,10 @@ func VHC15Sequence() {
 			want += c15Render(list) + " " + itoa(len(list)) + "\n"
 		}
 	}
-	prog += "}"
+	if !failed {
+		prog += "for (q in al) { cnt++; tmp = q }\ntmp = [al[0], al.length()]\n"
+	}
+	prog += "}\nENDFILE { for (k, v in $) { tmp = v; if (v is array) { for (q in v) { tmp = q } } } }"
 	out, kc := runProg(prog, doc)
 	vh.Reach("sequence evaluated")
 	if failed {
